@@ -167,10 +167,20 @@ class Section:
         """
         self.state = SectionState.CONNECTED
         for line in self.lines:
-            line.connect()
+            # The line of an open circuit breaker is connected
+            # by the circuit breaker when it closes
+            if line.circuitbreaker is None or not line.circuitbreaker.is_open:
+                line.connect()
         for switch in self.switches:
-            # Skip if switch is a CircuitBreaker
+            # Skip if switch is a CircuitBreaker,
+            # it is operated by the controller
             if not is_disconnector(switch):
+                continue
+            # Skip if the switch bounds a section that is still disconnected
+            if (
+                switch.line.section is not None
+                and switch.line.section.state != SectionState.CONNECTED
+            ):
                 continue
             # If no intelligent switch on the disconnector
             if switch.intelligent_switch is None:
@@ -219,8 +229,21 @@ class Section:
         """
         self.state = SectionState.CONNECTED
         for line in self.lines:
-            line.connect()
+            # The line of an open circuit breaker is connected
+            # by the circuit breaker when it closes
+            if line.circuitbreaker is None or not line.circuitbreaker.is_open:
+                line.connect()
         for switch in self.switches:
+            # Skip if switch is a CircuitBreaker,
+            # it is operated by the controller
+            if not is_disconnector(switch):
+                continue
+            # Skip if the switch bounds a section that is still disconnected
+            if (
+                switch.line.section is not None
+                and switch.line.section.state != SectionState.CONNECTED
+            ):
+                continue
             switch.close()
 
     def get_disconnect_time(self, dt: Time, controller: Controller):
